@@ -84,13 +84,35 @@ def replay(case) -> dict:
     want_R = rot_from_spec(case["expect"]["R"])
     tomo = np.zeros(TSHAPE, np.float32)
     plant(tomo, tmpls[cfg["j"]], pstar, Rstar)
+    form0 = int(case.get("_form", 0))
+    if (form0 // 4) % 3 == 1:
+        tomo = tomo.astype(np.float64)
+    elif (form0 // 4) % 3 == 2 and cfg["kind"] in ("single", "multi", "stack", "group"):
+        import dask.array as da
+
+        tomo = da.from_array(tomo, chunks=(11, 13, 30))
+    # the same request in the argument forms the API accepts: scalar / tuple limits, array / ImageProvider templates,
+    # rotations as objects / as one Rotation of several / through a model factory; tomogram as float32 / float64 / dask
+    form = int(case.get("_form", 0))
     kw = dict(max_shifts=max_shift_px * scale, alignment_model=M, rotations=rots)
+    if form % 4 == 1:
+        kw["max_shifts"] = (max_shift_px * scale,) * 3
+    elif form % 4 == 2:
+        kw = dict(max_shifts=max_shift_px * scale, alignment_model=M.with_params(rotations=rots))
+    elif form % 4 == 3:
+        kw["rotations"] = Rotation.concatenate(rots)
+    desc["form"] = form
     feats = pl.DataFrame({"g": [0]})
     mole = Molecules(p_in[None, :], Rotation.concatenate([R_in]), features=feats)
     if kind in ("single", "multi", "stack"):
         loader = SubtomogramLoader(tomo, mole, order=cfg["order"], scale=scale, output_shape=(BOX,) * 3)
         if kind == "single":
-            out = engine.api(loader.align, tmpls[0], **kw).molecules
+            t0 = tmpls[0]
+            if (form // 12) % 2 == 1:
+                from acryo import pipe
+
+                t0 = pipe.from_array(tmpls[0], original_scale=scale)      # an ImageProvider at the loader's own scale: the same image
+            out = engine.api(loader.align, t0, **kw).molecules
         else:
             if kind == "multi":
                 out = engine.api(loader.align_multi_templates, tmpls, **kw).molecules
@@ -161,8 +183,9 @@ def run(rep: engine.Report, tier: str, seed: int):
         raise engine.MachineryError("MC_C01 emitted nothing")
     search = sorted({json.dumps(c["cfg"]["q"], sort_keys=True) for c in cases})
     search = [json.loads(s) for s in search]
-    for c in cases:
+    for i, c in enumerate(cases):
         c["_search"] = search
+        c["_form"] = (i * 7 + seed) % 24
     budget = 1500 if tier == "quick" else 12000
     sel = engine.stratified_sample(cases, _stratum, budget, seed)
     rep.exhaustive = len(sel) == len(cases)
